@@ -142,6 +142,8 @@ structure SSt where
   elemStack : List Bool := []        -- head = back(); true = children were added
   needDoctype : Bool := false
   i : ISt := {}
+  /-- `m_nextIsRaw`: set by the marker PI a result tree fragment stores in front of disable-output-escaping text -/
+  nextIsRaw : Bool := false
 deriving Repr, DecidableEq, Inhabited
 
 /-- `writeParentTagEnd()` with `markParentForChildren()` -/
@@ -234,7 +236,9 @@ def endDocument (k : HKind) (s : SSt) : List Tok :=
   let i := s.i.upd k fun i => { i with startNewLine := true }
   i.indent k
 
-def step (cc : CodeCfg) (c : SerCfg) (k : HKind) (s : SSt) : Ev → SSt × List Tok
+/-- the FormatterToXMLUnicode level: `writeCharacters`, `writeCDATA`, `charactersRaw`,
+`writeProcessingInstruction`, … — none of them reads or writes `m_nextIsRaw` -/
+def stepCore (cc : CodeCfg) (c : SerCfg) (k : HKind) (s : SSt) : Ev → SSt × List Tok
   | .startElement n a => startElement c k s n a
   | .endElement n => endElement c k s n
   | .characters t => characters k s t
@@ -242,6 +246,28 @@ def step (cc : CodeCfg) (c : SerCfg) (k : HKind) (s : SSt) : Ev → SSt × List 
   | .raw t => charactersRaw cc k s t
   | .comment t => comment k s t
   | .pi t d => procInstr k s t d
+
+/-- `FormatterListener::s_piTarget` / `s_piData`: the processing instruction `<?Xalan raw?>` a result tree fragment
+stores in front of a disable-output-escaping text node (`FormatterToSourceTree::charactersRaw`) -/
+def rawMarkerTarget : Str := [88, 97, 108, 97, 110]
+def rawMarkerData : Str := [114, 97, 119]
+
+def isRawMarker (target data : Str) : Bool := target == rawMarkerTarget && data == rawMarkerData
+
+/-- the XalanXMLSerializerBase level (XalanXMLSerializerBase.cpp `characters` 262-282, `cdata` 286-306,
+`processingInstruction` 310-325): the marker PI sets `m_nextIsRaw`; the next non-empty `characters` **or** `cdata`
+call resets it and goes to `charactersRaw`; every other event leaves the flag alone -/
+def step (cc : CodeCfg) (c : SerCfg) (k : HKind) (s : SSt) : Ev → SSt × List Tok
+  | .pi t d => if isRawMarker t d then ({ s with nextIsRaw := true }, []) else stepCore cc c k s (.pi t d)
+  | .characters t =>
+    if t.isEmpty then (s, [])
+    else if s.nextIsRaw then stepCore cc c k { s with nextIsRaw := false } (.raw t)
+    else stepCore cc c k s (.characters t)
+  | .cdata t =>
+    if t.isEmpty then (s, [])
+    else if s.nextIsRaw then stepCore cc c k { s with nextIsRaw := false } (.raw t)
+    else stepCore cc c k s (.cdata t)
+  | e => stepCore cc c k s e
 
 /-- run the event handlers from a state, accumulating output -/
 def runFrom (cc : CodeCfg) (c : SerCfg) (k : HKind) : SSt → List Ev → SSt × List Tok
